@@ -146,6 +146,9 @@ def run_expected(run: Run) -> None:
         us.append((4, picks4[gi:] + picks4[:gi], "superadditive_cached", gap_name, 4 if quick else 6, 1 + gi, small, f"exact4-{gap_name}"))
         us.append((4, [("GEN", "graph_random", 4, seed + gi), ("GEN", "xos", 4, seed + 3 + gi)], "superadditive", gap_name, 3 if quick else 5, 2, small,
                    f"gen4-{gap_name}"))
+    # tiny units: every mean gap (and every difference between candidates) is far below 1e-6 in absolute terms
+    us.append((3, [A.scaled(g, A.TINY) for g in picks3[:3]], "superadditive", "l1_norm", 3, 2, schedules(2, True), "tiny3"))
+    us.append((4, [A.scaled(g, A.TINY) for g in picks4[:2]], "superadditive_cached", "exploitability", 3, 2, [(1, "p1", [0]), (2, "round-robin", [0, 1])], "tiny4"))
     # the randomised variant ('ugreedy'): same rule up to the documented 1e-6 tie window; symmetric games so that ties really occur
     sym3 = tuple(float(A.popcount(s) ** 2) for s in range(8))
     sym4 = tuple(float(A.popcount(s) ** 2) for s in range(16))
